@@ -18,6 +18,7 @@ func init() {
 			"R2 application order — patchRunner.Apply and File.Apply iterate programs then changes with forward index loops that visit every element, each Match is given the one file object that every Replace mutates in place (FileReplacer.Replace returns the very *ast.File that FileMatcher.Match recorded); " +
 			"R3 a change that does not match is a no-op: nothing is called between its false verdict and the next change; R4 if a step fails the runner reports matched == false with the error recorded (the file is left untouched), and the library returns the error and no bytes; " +
 			"R5 no state derived from the file survives from one change to the next other than the file itself: matching and replacing never write the compiled program or package-level variables. " +
+			"R1 also: every non-empty line of the -P list is loaded as often as it is listed (no path of an iteration skips LoadFile except for an empty line), LoadFile succeeds only after LoadReader ran and LoadReader only after appending the program; R6 no stale parse-time state — File.Unresolved, File.Scope, Ident.Obj, Object.*, Scope.* (computed once by go/parser, not maintained by replacements) are read nowhere except the inventoried conservative Obj == nil test of usesNameAsTopLevel. " +
 			"NOT decided: the claimed equivalence with a chain of separate runs (stale positions, Ident.Obj, shared comment lists after in-place mutation) — a runtime relation between two executions.",
 		Trusted:     commonTrusted,
 		Assumptions: commonAssumptions,
@@ -183,13 +184,15 @@ func c09Collection(r *an.Run) {
 	// LoadFileList: scanner order
 	if f := fn(r, mainP, "patchLoader.LoadFileList"); f != nil {
 		var load ssa.CallInstruction
-		for _, c := range an.Calls(f) {
-			if an.StaticCallee(c) == r.P.Func(mainP, "patchLoader.LoadFile") {
-				load = c
+		for _, g := range helperGroup(f, 2) {
+			for _, c := range an.Calls(g) {
+				if an.StaticCallee(c) == r.P.Func(mainP, "patchLoader.LoadFile") && g != r.P.Func(mainP, "patchLoader.LoadFile") {
+					load = c
+				}
 			}
 		}
 		if r.Check(load != nil, short(f)+"|loads", f.Pos(), "each listed patch is loaded") {
-			l := an.LoopOf(f, load.Block())
+			l := an.LoopOf(load.Parent(), load.Block())
 			good := l != nil
 			if good {
 				// the path comes from scanner.Text() of the same iteration
@@ -386,12 +389,12 @@ func c09ApplicationOrder(r *an.Run) {
 	if f := fn(r, engine, "FileReplacer.Replace"); f != nil {
 		good := true
 		n := 0
-		for _, ret := range an.Returns(f) {
-			if an.IsNilConst(ret.Results[0]) {
+		for _, v := range returnedLeaves(f, 0, 0) {
+			if an.IsNilConst(v) {
 				continue
 			}
 			n++
-			if an.Path(ret.Results[0]) != "fd.File" {
+			if an.PathIn(v, f) != "fd.File" {
 				good = false
 			}
 		}
